@@ -4,7 +4,7 @@ use core::time::Duration;
 use sc::nr;
 use sc::vk::{err, ks, K};
 use tiny_std::io::{Read, Write};
-use tiny_std::net::{TcpStream, UnixListener, UnixStream};
+use tiny_std::net::{TcpListener, TcpStream, UnixListener, UnixStream};
 
 struct Obs {
     polls: u32,
@@ -18,9 +18,11 @@ struct Obs {
     op_after_ready_blocked: bool,
     last_op_ret: usize,
     first_op_eagain: bool,
+    accept_flags_ok: bool,
+    accepted: u32,
 }
 static mut OBS: Obs = Obs { polls: 0, poll_timeouts: 0, poll_ready: 0, poll_eintr: 0, ts_present: false, ts_s: 0, ts_ns: 0, ops: 0,
-                            op_after_ready_blocked: false, last_op_ret: 0, first_op_eagain: false };
+                            op_after_ready_blocked: false, last_op_ret: 0, first_op_eagain: false, accept_flags_ok: true, accepted: 0 };
 fn obs() -> &'static mut Obs {
     unsafe { &mut *core::ptr::addr_of_mut!(OBS) }
 }
@@ -41,6 +43,12 @@ fn hook(k: &mut K, n: usize, a: &[usize; 6]) -> Option<usize> {
                 }
                 err(EAGAIN)
             } else if n == nr::ACCEPT4 {
+                // a stream of this library is always non-blocking (its reads wait with ppoll, which is what makes the
+                // time-limited variants able to report Timeout) and close-on-exec
+                o.accepted += 1;
+                if a[3] & 0x800 == 0 || a[3] & 0x80000 == 0 {
+                    o.accept_flags_ok = false;
+                }
                 k.alloc_fd()
             } else {
                 let c: usize = kani::any();
@@ -177,49 +185,58 @@ fn read_with_timeout_exact() {
     core::mem::forget(s);
 }
 
-// @ob C16 quick try_accept_never_waits fns=UnixListener::try_accept,UnixListener::accept,UnixListener::accept_with_timeout,sock_nonblock_op_poll_if_not_ready bound="listener pre-existing; accept4: EAGAIN or a descriptor; ppoll script" timeout=900
-#[kani::proof]
-#[kani::unwind(6)]
-fn try_accept_never_waits() {
-    setup();
-    let k = ks();
-    k.fd_open |= 1 << 7;
-    let mut l: UnixListener = unsafe { core::mem::transmute::<i32, UnixListener>(7) };
-    let which: u8 = kani::any();
-    let o = obs();
-    match which {
-        0 => {
-            let r = l.try_accept();
-            assert!(o.polls == 0, "try_accept never waits");
-            assert!(o.ops == 1, "one attempt");
-            kani::cover!(matches!(r, Ok(None)), "nothing to accept right now");
-            if o.first_op_eagain {
-                assert!(matches!(r, Ok(None)), "not ready -> None, not an error");
+macro_rules! accept_harness {
+    ($name:ident, $listener:ty) => {
+        #[kani::proof]
+        #[kani::unwind(6)]
+        fn $name() {
+            setup();
+            let k = ks();
+            k.fd_open |= 1 << 7;
+            let mut l: $listener = unsafe { core::mem::transmute::<i32, $listener>(7) };
+            let which: u8 = kani::any();
+            let o = obs();
+            match which {
+                0 => {
+                    let r = l.try_accept();
+                    assert!(o.polls == 0, "try_accept never waits");
+                    assert!(o.ops == 1, "one attempt");
+                    kani::cover!(matches!(r, Ok(None)), "nothing to accept right now");
+                    kani::cover!(matches!(r, Ok(Some(_))), "a connection was waiting");
+                    if o.first_op_eagain {
+                        assert!(matches!(r, Ok(None)), "not ready -> None, not an error");
+                    }
+                    if let Ok(Some(s)) = r {
+                        core::mem::forget(s);
+                    }
+                }
+                1 => {
+                    let r = l.accept();
+                    if o.first_op_eagain {
+                        assert!(o.polls >= 1 && !o.ts_present, "blocking accept waits without limit");
+                    }
+                    kani::cover!(o.first_op_eagain && r.is_ok(), "accepted after waiting");
+                    if let Ok(s) = r {
+                        core::mem::forget(s);
+                    }
+                }
+                _ => {
+                    let r = l.accept_with_timeout(Duration::new(3, 7));
+                    if let Err(tiny_std::Error::Timeout) = r {
+                        assert!(o.poll_timeouts == 1 && o.ts_s == 3 && o.ts_ns == 7, "Timeout only after ppoll timed out with the exact limit");
+                    }
+                    kani::cover!(matches!(r, Err(tiny_std::Error::Timeout)), "accept timed out");
+                    if let Ok(s) = r {
+                        core::mem::forget(s);
+                    }
+                }
             }
-            if let Ok(Some(s)) = r {
-                core::mem::forget(s);
-            }
+            assert!(o.accept_flags_ok, "every accepted stream is created non-blocking and close-on-exec");
+            core::mem::forget(l);
         }
-        1 => {
-            let r = l.accept();
-            if o.first_op_eagain {
-                assert!(o.polls >= 1 && !o.ts_present, "blocking accept waits without limit");
-            }
-            kani::cover!(o.first_op_eagain && r.is_ok(), "accepted after waiting");
-            if let Ok(s) = r {
-                core::mem::forget(s);
-            }
-        }
-        _ => {
-            let r = l.accept_with_timeout(Duration::new(3, 7));
-            if let Err(tiny_std::Error::Timeout) = r {
-                assert!(o.poll_timeouts == 1 && o.ts_s == 3 && o.ts_ns == 7, "Timeout only after ppoll timed out with the exact limit");
-            }
-            kani::cover!(matches!(r, Err(tiny_std::Error::Timeout)), "accept timed out");
-            if let Ok(s) = r {
-                core::mem::forget(s);
-            }
-        }
-    }
-    core::mem::forget(l);
+    };
 }
+// @ob C16 quick try_accept_never_waits fns=UnixListener::try_accept,UnixListener::accept,UnixListener::accept_with_timeout,sock_nonblock_op_poll_if_not_ready bound="listener pre-existing; accept4: EAGAIN or a descriptor; ppoll script" timeout=900
+accept_harness!(try_accept_never_waits, UnixListener);
+// @ob C16 quick tcp_accept_variants fns=TcpListener::try_accept,TcpListener::accept,TcpListener::accept_with_timeout bound="as try_accept_never_waits, TCP listener" timeout=900
+accept_harness!(tcp_accept_variants, TcpListener);
